@@ -284,44 +284,51 @@ theorem knapsackPricing_fits (sizes : List Nat) (W : Nat) (values : List Rat) (e
       · exact hzero
     · exact hzero
 
-theorem csLoop_fit (W : Nat) (sizes d : List Nat) (eps : Rat) (hpos : ∀ s ∈ sizes, 0 < s) :
+theorem csLoop_fit (W : Nat) (sizes d : List Nat) (eps : Rat) (stop : Nat → Bool) (hpos : ∀ s ∈ sizes, 0 < s) :
     ∀ (fuel it : Nat) (pats : List Pat), (∀ p ∈ pats, Fits W sizes p) →
-      ∀ p ∈ (csLoop W sizes d eps fuel it pats).1, Fits W sizes p := by
+      ∀ p ∈ (csLoop W sizes d eps stop fuel it pats).1, Fits W sizes p := by
   intro fuel
   induction fuel with
   | zero => intro it pats h; simpa [csLoop] using h
   | succ fuel ih =>
     intro it pats h
     unfold csLoop
-    dsimp only
     split
     · exact h
-    · apply ih
+    · dsimp only
       split
       · exact h
-      · intro p hp
-        rcases List.mem_append.1 hp with hp | hp
-        · exact h p hp
-        · have : p = (knapsackPricing sizes W (masterLP pats d eps).2.1 eps).1 := by simpa using hp
-          rw [this]; exact knapsackPricing_fits sizes W _ eps hpos
+      · apply ih
+        split
+        · exact h
+        · intro p hp
+          rcases List.mem_append.1 hp with hp | hp
+          · exact h p hp
+          · have : p = (knapsackPricing sizes W (masterLP pats d eps).2.1 eps).1 := by simpa using hp
+            rw [this]; exact knapsackPricing_fits sizes W _ eps hpos
 
 /-- The pricing loop reports `converged` only when it stopped because no pattern prices above
-`1 + eps` under the duals of the *returned* pool. -/
-theorem csLoop_converged (W : Nat) (sizes d : List Nat) (eps : Rat) :
-    ∀ (fuel it : Nat) (pats : List Pat), (csLoop W sizes d eps fuel it pats).2.2 = true →
-      (knapsackPricing sizes W (masterLP (csLoop W sizes d eps fuel it pats).1 d eps).2.1 eps).2 ≤ 1 + eps := by
+`1 + eps` under the duals of the *returned* pool (never after a stop requested by the callback or
+when `max_iter` ran out). -/
+theorem csLoop_converged (W : Nat) (sizes d : List Nat) (eps : Rat) (stop : Nat → Bool) :
+    ∀ (fuel it : Nat) (pats : List Pat), (csLoop W sizes d eps stop fuel it pats).2.2 = true →
+      (knapsackPricing sizes W (masterLP (csLoop W sizes d eps stop fuel it pats).1 d eps).2.1 eps).2 ≤ 1 + eps := by
   intro fuel
   induction fuel with
   | zero => intro it pats h; simp [csLoop] at h
   | succ fuel ih =>
     intro it pats h
     unfold csLoop at h ⊢
-    dsimp only at h ⊢
     split
-    · rename_i hle; exact hle
-    · rename_i hle
-      rw [if_neg hle] at h
-      exact ih _ _ h
+    · rename_i hs; rw [if_pos hs] at h; simp at h
+    · rename_i hs
+      rw [if_neg hs] at h
+      dsimp only at h ⊢
+      split
+      · rename_i hle; exact hle
+      · rename_i hle
+        rw [if_neg hle] at h
+        exact ih _ _ h
 
 theorem pricingCols_mem (cols : List Pat) (duals : List Rat) :
     ∀ c, (pricingCols cols duals).1 = some c → c ∈ cols := by
@@ -345,8 +352,8 @@ theorem pricingCols_mem (cols : List Pat) (duals : List Rat) :
       · exact h c' hc'
   exact gen cols (none, 0) (by simp) (fun c hc => hc)
 
-theorem customLoop_mem (cols : List Pat) (d : List Nat) (eps : Rat) :
-    ∀ (fuel it : Nat) (cur : List Pat), ∀ p ∈ (customLoop cols d eps fuel it cur).1, p ∈ cur ∨ p ∈ cols := by
+theorem customLoop_mem (cols : List Pat) (d : List Nat) (eps : Rat) (stop : Nat → Bool) :
+    ∀ (fuel it : Nat) (cur : List Pat), ∀ p ∈ (customLoop cols d eps stop fuel it cur).1, p ∈ cur ∨ p ∈ cols := by
   intro fuel
   induction fuel with
   | zero => intro it cur p hp; left; simpa [customLoop] using hp
@@ -355,17 +362,19 @@ theorem customLoop_mem (cols : List Pat) (d : List Nat) (eps : Rat) :
     unfold customLoop at hp
     split at hp
     · left; exact hp
-    · rename_i c rc hpc
-      split at hp
+    · split at hp
       · left; exact hp
-      · have hc : c ∈ cols := pricingCols_mem cols _ c (by rw [hpc])
-        rcases ih _ _ p hp with h | h
-        · split at h
-          · left; exact h
-          · rcases List.mem_append.1 h with h | h
+      · rename_i c rc hpc
+        split at hp
+        · left; exact hp
+        · have hc : c ∈ cols := pricingCols_mem cols _ c (by rw [hpc])
+          rcases ih _ _ p hp with h | h
+          · split at h
             · left; exact h
-            · right; have : p = c := by simpa using h
-              exact this ▸ hc
-        · right; exact h
+            · rcases List.mem_append.1 h with h | h
+              · left; exact h
+              · right; have : p = c := by simpa using h
+                exact this ▸ hc
+          · right; exact h
 
 end Solvor.Cut.Mirror
